@@ -519,6 +519,30 @@ static int op_growat(const char* kind, unsigned long long cap) {
   return 1;
 }
 
+
+/* LOADSEQ <hex>: decode a CBOR sequence in ONE process by repeated cbor_load at the offset advanced by bytes-read (each call on an
+   exactly-sized copy of the remainder); prints the number of items, an FNV digest of the read lengths and the final offset, or the
+   index / offset / error of the first failure.  */
+static int op_loadseq(const char* hex) {
+  struct xbuf all = hex_to_exact(hex);
+  size_t off = 0, n = 0; uint64_t h = 1469598103934665603ULL;
+  long live0 = h_alloc_live();
+  while (off < all.n) {
+    struct xbuf win = exact_copy(all.p + off, all.n - off);
+    struct cbor_load_result res;
+    cbor_item_t* it = cbor_load(win.p, win.n, &res);
+    free_exact(win);
+    if (!it) { printf("FAIL item=%zu off=%zu code=%s pos=%zu live=%ld\n", n, off, err_name(res.error.code), res.error.position, h_alloc_live() - live0); free_exact(all); return 1; }
+    cbor_decref(&it);
+    if (res.read == 0) { printf("FAIL item=%zu off=%zu read=0\n", n, off); free_exact(all); return 1; }
+    h = (h ^ (uint64_t)res.read) * 1099511628211ULL;
+    off += res.read; n++;
+  }
+  printf("OK items=%zu end=%zu digest=%016" PRIx64 " live=%ld\n", n, off, h, h_alloc_live() - live0);
+  free_exact(all);
+  return 1;
+}
+
 int hist_op(int argc, char** w);
 
 int tree_op(int argc, char** w) {
@@ -538,5 +562,6 @@ int tree_op(int argc, char** w) {
   }
   if (argc == 2 && !strcmp(w[0], "UTF8ITEM")) { extern void op_utf8item(const char*); op_utf8item(w[1]); return 1; }
   if (argc == 3 && !strcmp(w[0], "GROWAT")) return op_growat(w[1], strtoull(w[2], 0, 10));
+  if (argc == 2 && !strcmp(w[0], "LOADSEQ")) return op_loadseq(w[1]);
   return hist_op(argc, w);
 }
